@@ -108,10 +108,35 @@ int main(int argc, char** argv) {
         for (long i = 0; i < n; i++) { std::string c; std::string t = predSM(r, out, c); out.emit(c, t); }
         GEOS_finish_r(h); return 0; }
     GridGen gen(r, h, &out); gen.walkPct = 15;
+    // series: ONE prepared geometry of a multi-element A answers for several partners in a row (what an index join does);
+    // every answer is still compared with the exact reference of its own pair
+    GGeom seriesA; int seriesLeft = 0; Xform seriesT; std::unique_ptr<Geometry> seriesGa; const GEOSPreparedGeometry* seriesPrep = nullptr; std::string seriesTa;
     for (long i = 0; i < n; i++) {
+        if (seriesLeft > 0) {
+            seriesLeft--;
+            gen.setPartner(seriesA, r.chance(80) ? 60 : 0);
+            GGeom B; int mode = (int) r.below(100);
+            if (mode < 20) B = gen.partialCover(seriesA, true); else { if (mode < 35) gen.setPartnerInterior(seriesA); gen.span = r.chance(50) ? 3 : 6; B = gen.geom(3, true, true); }
+            std::string tb = GridGen::geomTok(B, seriesT); std::unique_ptr<Geometry> gb;
+            try { gb = buildGeom(tb, gf); } catch (...) { out.count("build_rejected"); continue; }
+            if (GEOSisValid_r(h, (GEOSGeometry*) gb.get()) != 1) { out.count("invalid_skipped"); continue; }
+            { FILE* cf = std::fopen((std::string(argv[4]) + ".current").c_str(), "w"); if (cf) { std::fprintf(cf, "R | %s | %s |\n", seriesTa.c_str(), tb.c_str()); std::fclose(cf); } }
+            std::string obs = observe(h, (GEOSGeometry*) seriesGa.get(), (GEOSGeometry*) gb.get(), r, "", seriesPrep);
+            out.count("prepared_reused");
+            out.emit("R | " + seriesTa + " | " + tb + " |" + obs, "ok");
+            if (seriesLeft == 0) { GEOSPreparedGeom_destroy_r(h, seriesPrep); seriesPrep = nullptr; seriesGa.reset(); }
+            continue; }
         gen.span = r.chance(60) ? 6 : (r.chance(40) ? 3 : 10);
         gen.setPartner(GGeom{}, 0);
         GGeom A = gen.geom(3, true, true);
+        if (r.chance(8)) {       // open a series on a multi-element A
+            gen.span = 10; GGeom M; M.container = 1; int kind = r.chance(60) ? 2 : 1; int ne = r.range(2, 4);
+            for (int q = 0; q < ne; q++) { GGeom one = gen.geom(kind, false, false); for (auto& e : one.elems) if (e.kind == kind) M.elems.push_back(e); }
+            Xform t = gen.xform(); std::string ta = GridGen::geomTok(M, t); std::unique_ptr<Geometry> ga;
+            try { ga = buildGeom(ta, gf); } catch (...) { ga.reset(); }
+            if (ga && M.elems.size() >= 2 && GEOSisValid_r(h, (GEOSGeometry*) ga.get()) == 1) {
+                seriesPrep = GEOSPrepare_r(h, (GEOSGeometry*) ga.get());
+                if (seriesPrep) { seriesA = M; seriesT = t; seriesTa = ta; seriesGa = std::move(ga); seriesLeft = r.range(2, 4); out.count("series_opened"); continue; } } }
         gen.setPartner(A, r.chance(80) ? 55 : 0);
         GGeom B;
         int mode = (int) r.below(100);
@@ -131,5 +156,6 @@ int main(int argc, char** argv) {
         { size_t k = obs.find(" m="); out.count("matrix_" + obs.substr(k + 3, 9)); }
         out.emit("R | " + ta + " | " + tb + " |" + obs, "ok");
     }
+    if (seriesPrep) GEOSPreparedGeom_destroy_r(h, seriesPrep);
     GEOS_finish_r(h); return 0;
 }
